@@ -6,7 +6,8 @@ Case format (lines of integers; a statement's label is its position among the st
   [1, end_time, exec]
   [2, label, kind, def, uniq, out_ty, has_sc, nsc, sc...]      node statement
         kind 0 pull source, 1 compute, 2 sink, 3 push source, 4 feedback source, 5 feedback sink
-  [3, label, slot, rank, ntp, tp..., SRC]                       one input of the node statement above
+  [3, label, slot, flags, ntp, tp..., SRC]                      one input of the node statement above
+        flags bit 0: rank_dependency, bit 1: the source port carries the passive marker (`passive(port)`)
         SRC := 0 ref npath path.. | 1 ph npath path.. | 2 | 3 k SRC*k   (peered/delayed/null/structural)
   [4, label, ty]                                                delayed_binding placeholder
   [5, label, ph, ref, npath, path..]                            bind placeholder ph to node ref's port
@@ -14,7 +15,8 @@ Case format (lines of integers; a statement's label is its position among the st
   [8, k, labels...]                                             k-th statement order
 Implementation output per order k:
   [20,k,code] 0 built, 1 cycle, 2 push-source dependency, 3 unbound placeholder, 4 self dependency,
-              6 inadmissible order, 8 rebind, 5 other
+              6 inadmissible order, 8 rebind, 9 passive marker on every active input, 5 other
+  [27,k,creator,active slots...]  active-input list of each compiled native node with inputs
   [23,k,rep(label)...]  label of the statement whose node each node statement was merged into (-1: not a node)
   [21,k,n,creator label of node 0..n-1]     [22,k,src,srckind,tgt,nsp,sp..,ntp,tp..] compiled edges
   [24,k,sink label,t1,v1,...] stream seen by each sink   [25,k,creator,evals,...]   [26,k,1] run error
@@ -29,7 +31,7 @@ BUDGET = {"quick": 300, "thorough": 4000}
 
 PROP_KINDS = {
     "C01": {"order", "dep_order", "verdict", "push_prefix", "perm", "edges"},
-    "C06": {"merge", "sink_merged", "streams", "evals", "perm", "verdict_varies", "count_varies"},
+    "C06": {"merge", "sink_merged", "streams", "evals", "perm", "verdict_varies", "count_varies", "passive_marker_not_in_key"},
 }
 
 
@@ -69,7 +71,7 @@ def encode(prog, orders, end_time=12, exe=1):
         if st["t"] == "node":
             case.append([2, lab, st["kind"], st["def"], st["uniq"], st["out"], st["has_sc"], len(st["sc"])] + list(st["sc"]))
             for slot, i in enumerate(st["ins"]):
-                case.append([3, lab, slot, i["rank"], len(i["tp"])] + list(i["tp"]) + enc_src(i["src"]))
+                case.append([3, lab, slot, i["rank"] + 2 * i.get("passive", 0), len(i["tp"])] + list(i["tp"]) + enc_src(i["src"]))
         elif st["t"] == "place":
             case.append([4, lab, st["ty"]])
         elif st["t"] == "bind":
@@ -92,7 +94,7 @@ def decode(case):
         elif l[0] == 3 and prog and prog[-1]["t"] == "node":
             n = l[4]
             s, _ = dec_src(l, 5 + n)
-            prog[-1]["ins"].append({"rank": l[3], "tp": tuple(l[5:5 + n]), "src": s})
+            prog[-1]["ins"].append({"rank": l[3] & 1, "passive": 1 if l[3] >= 2 else 0, "tp": tuple(l[5:5 + n]), "src": s})
         elif l[0] == 4:
             prog.append({"t": "place", "ty": l[2]})
         elif l[0] == 5:
@@ -167,8 +169,8 @@ def _node(kind, d, out, has_sc=0, sc=(), ins=(), uniq=0):
             "ins": [dict(i) for i in ins]}
 
 
-def _inp(src, rank=1, tp=()):
-    return {"rank": rank, "tp": tuple(tp), "src": src}
+def _inp(src, rank=1, tp=(), passive=0):
+    return {"rank": rank, "passive": passive, "tp": tuple(tp), "src": src}
 
 
 def gen_program(rng, tier, prop):
@@ -192,6 +194,8 @@ def gen_program(rng, tier, prop):
             same = [x for x in pool if ty[x] == ty[a]]
             k = rng.choice([2, 2, 3])
             cs = [("p", rng.choice(same), ()) for _ in range(k)]
+            if ty[a] == 1 and rng.random() < 0.4:
+                cs[rng.randrange(len(cs) - 1)] = ("n",)     # an omitted leaf BEFORE a produced one
             if rng.random() < 0.25:
                 cs = [("s", tuple(cs)), ("s", tuple(("p", rng.choice(same), ()) for _ in range(k)))]
             return ("s", tuple(cs))
@@ -217,7 +221,7 @@ def gen_program(rng, tier, prop):
     if rng.random() < 0.15:
         feats.add(rng.choice(["cyc_self", "cyc_2", "cyc_long", "cyc_dep", "cyc_dep_merge"]))
     if rng.random() < 0.04:
-        feats.add(rng.choice(["unbound", "rebind", "selfdep", "pushdep", "unbound_free"]))
+        feats.add(rng.choice(["unbound", "rebind", "selfdep", "pushdep", "unbound_free", "allpassive"]))
     dup_rate = 0.35 if prop == "C06" else 0.15
 
     # sources
@@ -281,19 +285,26 @@ def gen_program(rng, tier, prop):
             ins.append(_inp(("d", ph_free, ()), rank=0))
             free_users.append(len(prog))
         if ph_fwd is not None and rng.random() < 0.25:
-            ins.append(_inp(("s", (("d", ph_fwd, ()), ("d", ph_fwd, ()))) if rng.random() < 0.3 else ("d", ph_fwd, ())))
+            r2 = rng.random()
+            ins.append(_inp(("s", (("n",), ("d", ph_fwd, ()))) if r2 < 0.3 else
+                            ("s", (("d", ph_fwd, ()), ("d", ph_fwd, ()))) if r2 < 0.45 else ("d", ph_fwd, ())))
             fwd_users.append(len(prog))
         if rng.random() < 0.2:        # explicit target path equal to the slot: same key as the implicit one
             k = rng.randrange(len(ins))
             if ins[k]["src"][0] != "s" or True:
                 ins[k]["tp"] = (k,)
+        if sum(1 for i in ins if i["rank"]) >= 2 and rng.random() < 0.08:
+            cand = [i for i in ins if i["rank"] and i["src"][0] == "p"]
+            if cand:
+                rng.choice(cand)["passive"] = 1
         l = compute(ins)
         made.append(l)
         # duplicated sub-expressions and critical pairs
         if rng.random() < dup_rate:
             st = prog[l]
             c = _node(1, st["def"], st["out"], st["has_sc"], st["sc"], st["ins"])
-            how = rng.choice(["same", "same", "same", "scalar", "swap", "type", "def", "tp", "uniq", "rank", "hassc", "nsc", "input"])
+            how = rng.choice(["same", "same", "same", "scalar", "swap", "type", "def", "tp", "uniq", "rank", "hassc", "nsc", "input",
+                              "passive", "passive"])
             if how == "scalar" and c["sc"]:
                 k = rng.randrange(len(c["sc"]))
                 sc = list(c["sc"])
@@ -318,6 +329,14 @@ def gen_program(rng, tier, prop):
                 # legitimately depend on the insertion-order tie-break.
                 c["ins"][-1]["rank"] = 0
                 pin = c["ins"][-1]["src"][1]
+            elif how == "passive":
+                # the pair differs ONLY in the passive marker of one input (and keeps another input active)
+                act = [k for k, i in enumerate(c["ins"]) if i["rank"] and not i.get("passive")]
+                if len(act) >= 2:
+                    k = rng.choice(act)
+                    (c if rng.random() < 0.5 else st)["ins"][k]["passive"] = 1
+                else:
+                    how = "same"
             elif how == "hassc" and c["has_sc"] == 0:
                 c["has_sc"], c["sc"] = 1, (0,)
             elif how == "nsc" and c["sc"]:
@@ -327,6 +346,9 @@ def gen_program(rng, tier, prop):
                 c["ins"][0]["rank"] = 1
             lc = add(c)
             made.append(lc)
+            if how == "passive":      # observe both members of the pair directly
+                add(_node(2, 0, 0, ins=[_inp(("p", l, ()))]))
+                add(_node(2, 1, 0, ins=[_inp(("p", lc, ()))]))
             if ph_free is not None and any(i["rank"] == 0 and ph_free in src_refs(i["src"])[1] for i in c["ins"]):
                 free_users.append(lc)     # a copy of a backward-link reader is itself a reader: pin it too
             if how == "rank" and c["ins"] and c["ins"][-1]["rank"] == 0 and c["ins"][-1]["src"][0] == "p":
@@ -452,6 +474,8 @@ def gen_program(rng, tier, prop):
                 st = prog[a]
                 twin = add(_node(1, st["def"], st["out"], st["has_sc"], st["sc"], st["ins"]))
                 add({"t": "dep", "a": a, "b": twin})
+        elif f == "allpassive" and len(vals) >= 2:
+            made.append(compute([_inp(("p", rng.choice(vals), ()), passive=1), _inp(("p", rng.choice(vals), ()), passive=1)]))
         elif f == "pushdep":
             p = add(_node(3, 0, 1))
             add({"t": "dep", "a": p, "b": rng.choice([v for v in vals if v != p])})
@@ -476,11 +500,33 @@ def gen_program(rng, tier, prop):
     return prog
 
 
+def marker_free(st):
+    return (st["kind"], st["def"], st["uniq"], st["out"], st["has_sc"], st["sc"],
+            tuple((i["rank"], i["tp"], i["src"]) for i in st["ins"]))
+
+
+def passive_pairs(prog):
+    """labels a such that statements a and a+1 are node statements differing only in passive markers"""
+    out = []
+    for a in range(len(prog) - 1):
+        x, y = prog[a], prog[a + 1]
+        if is_node(x) and is_node(y) and marker_free(x) == marker_free(y) and \
+                [i.get("passive", 0) for i in x["ins"]] != [i.get("passive", 0) for i in y["ins"]] and (not out or out[-1] != a - 1):
+            out.append(a)
+    return out
+
+
 def gen(rng, tier, prop):
     prog = gen_program(rng, tier, prop)
     n_orders = 4 if tier == "quick" else rng.choice([4, 6, 8])
     orders = [list(range(len(prog)))]
-    for _ in range(n_orders - 1):
+    pairs = passive_pairs(prog)
+    if pairs:                   # the same program with every marker pair written in the other order
+        o = list(range(len(prog)))
+        for a in pairs:
+            o[a], o[a + 1] = o[a + 1], o[a]
+        orders.append(o)
+    while len(orders) < n_orders:
         orders.append(random_order(rng, prog))
     exe = 0 if any(st["t"] == "node" and st["kind"] == 3 for st in prog) else 1
     return encode(prog, orders, end_time=rng.choice([8, 12, 16]), exe=exe)
@@ -514,6 +560,8 @@ def parse_out(out):
             d["evals"] = dict(zip(l[2::2], l[3::2]))
         elif l[0] == 26:
             d["runerr"] = 1
+        elif l[0] == 27:
+            d.setdefault("active", {})[l[2]] = tuple(l[3:])
     return res
 
 
@@ -605,6 +653,25 @@ def oracle(prop, case, out):
     ref_evals = None
     verdicts = set()
     counts = set()
+
+    def markers(st):
+        return tuple(i.get("passive", 0) for i in st["ins"])
+    # statements that share a node although they differ in the passive marker of an input: what the node
+    # then does is decided by whichever statement ran first, so streams vary with statement order.
+    marker_pairs = set()
+    for k in range(len(orders)):
+        o = obs.get(k)
+        if o is None or o["reps"] is None:
+            continue
+        rp = list(o["reps"]) + [-1] * (len(prog) - len(o["reps"]))
+        for l, st in enumerate(prog):
+            r = rp[l]
+            if is_node(st) and 0 <= r < len(prog) and r != l and is_node(prog[r]) and markers(st) != markers(prog[r]) \
+                    and len(st["ins"]) == len(prog[r]["ins"]):
+                marker_pairs.add((min(l, r), max(l, r)))
+    for (a, b) in sorted(marker_pairs):
+        fails.append(("passive_marker_not_in_key",
+                      "statements %d and %d differ in the passive marker of an input but share one node" % (a, b)))
     for k in range(len(orders)):
         o = obs.get(k)
         if o is None or o["code"] is None:
@@ -615,7 +682,7 @@ def oracle(prop, case, out):
         if code == 5:
             fails.append(("verdict", "order %d: wiring failed with an exception that is none of the documented rejections" % k))
             continue
-        if code in (3, 4, 6, 8) or reps is None:
+        if code in (3, 4, 6, 8, 9) or reps is None:
             continue     # malformed programs: the wiring statement itself is refused; nothing to rank
         rep = list(reps) + [-1] * (len(prog) - len(reps))
         nodes_l = [l for l, st in enumerate(prog) if is_node(st)]
@@ -696,14 +763,16 @@ def oracle(prop, case, out):
             else:
                 if o["streams"] != ref_streams:
                     bad = [s for s in ref_streams if o["streams"].get(s) != ref_streams[s]]
-                    fails.append(("streams", "order %d: sink %s saw a different stream than in order 0" % (k, bad[:4])))
+                    fails.append(("passive_marker_not_in_key" if marker_pairs else "streams",
+                                  "order %d: sink %s saw a different stream than in order 0" % (k, bad[:4])))
                 if ev != ref_evals:
-                    fails.append(("evals", "order %d: evaluation counts differ from order 0" % k))
+                    fails.append(("passive_marker_not_in_key" if marker_pairs else "evals",
+                                  "order %d: evaluation counts differ from order 0" % k))
         elif exe and o["runerr"]:
             fails.append(("streams", "order %d: the built graph failed to run" % k))
     # two different statement-time refusals (self dependency, rebind) in one malformed program surface in
     # whichever order the statements run: not a property of the dataflow.  Everything else must not vary.
-    if len(verdicts) > 1 and not verdicts <= {4, 6, 8}:
+    if len(verdicts) > 1 and not verdicts <= {4, 6, 8, 9}:
         fails.append(("verdict_varies", "verdicts differ across statement orders: %s" % sorted(verdicts)))
     if len(counts) > 1:
         fails.append(("count_varies", "node counts differ across statement orders: %s" % sorted(counts)))
@@ -733,11 +802,13 @@ def stats(case, out):
          "with_structural_input": int(any(is_node(st) and any(i["src"][0] == "s" for i in st["ins"]) for st in prog)),
          "with_placeholder": int(any(st["t"] == "place" for st in prog)),
          "with_forward_reference": int(any(is_node(st) and any(i["rank"] and src_refs(i["src"])[1] for i in st["ins"]) for st in prog)),
+         "with_passive_marker": int(any(is_node(st) and any(i.get("passive") for i in st["ins"]) for st in prog)),
+         "with_passive_marker_pair": int(bool(passive_pairs(prog))),
          "executed": 0}
     for k, o in obs.items():
         c = o["code"]
-        s["verdict_%s" % {0: "built", 1: "cycle", 2: "pushdep", 3: "unbound", 4: "selfdep", 6: "inadmissible", 8: "rebind"}.get(c, "other")] = \
-            s.get("verdict_%s" % {0: "built", 1: "cycle", 2: "pushdep", 3: "unbound", 4: "selfdep", 6: "inadmissible", 8: "rebind"}.get(c, "other"), 0) + 1
+        s["verdict_%s" % {0: "built", 1: "cycle", 2: "pushdep", 3: "unbound", 4: "selfdep", 6: "inadmissible", 8: "rebind", 9: "allpassive"}.get(c, "other")] = \
+            s.get("verdict_%s" % {0: "built", 1: "cycle", 2: "pushdep", 3: "unbound", 4: "selfdep", 6: "inadmissible", 8: "rebind", 9: "allpassive"}.get(c, "other"), 0) + 1
         if o["reps"] is not None and k == 0:
             s["merged_statements"] = sum(1 for l, r in enumerate(o["reps"]) if r >= 0 and r != l)
         if c == 0 and k == 0:
@@ -772,7 +843,7 @@ def drop_stmt(prog, orders, i):
             continue
         st = dict(st)
         if st["t"] == "node":
-            st["ins"] = [{"rank": x["rank"], "tp": x["tp"], "src": _remap_src(x["src"], m)} for x in st["ins"]]
+            st["ins"] = [{"rank": x["rank"], "passive": x.get("passive", 0), "tp": x["tp"], "src": _remap_src(x["src"], m)} for x in st["ins"]]
         elif st["t"] == "bind":
             st["ph"], st["ref"] = m[st["ph"]], m[st["ref"]]
         elif st["t"] == "dep":
